@@ -13,11 +13,11 @@ namespace OF.Recv
 
 /-- `w` is the topic message of id `k` for topic `t` -/
 def IsT (t : Topic) (k : Int) (w : Wire) : Prop :=
-  w.mid = k ∧ decodeTopic w.frame0 = t ∧ w.topics = [t]
+  w.mid = k ∧ decodeTopic w.frame0 = t ∧ w.topics = [t] ∧ w.bal = 0
 
 /-- `w` is the heartbeat of id `k` of a publisher of topic `t` -/
 def IsH (t : Topic) (k : Int) (w : Wire) : Prop :=
-  w.mid = k ∧ decodeTopic w.frame0 = "" ∧ w.topics = [t]
+  w.mid = k ∧ decodeTopic w.frame0 = "" ∧ w.topics = [t] ∧ w.bal = 0
 
 /-- the wire stream of a one-topic publisher for the id list `ids` -/
 inductive Stream (t : Topic) : List Int → List Wire → Prop
@@ -34,12 +34,16 @@ inductive NEv where
   | deliverNext (j : Nat)
   | recv (e : Ev)            -- any receiver event except `deliver` and `begin (some _)` (see `NAdm`)
 
+def nDeliver (n : NSt) (j : Nat) : NSt × List Out :=
+  match n.future[j]? with
+  | some (w :: rest) => ({ st := (stepDeliver n.st j w).1, future := n.future.set j rest }, [])
+  | _ => (n, [])
+
+def nRecv (n : NSt) (e : Ev) : NSt × List Out := ({ n with st := (step n.st e).1 }, (step n.st e).2)
+
 def nstep (n : NSt) : NEv → NSt × List Out
-  | .deliverNext j =>
-    match n.future[j]? with
-    | some (w :: rest) => ({ st := (step n.st (.deliver j w)).1, future := n.future.set j rest }, [])
-    | _ => (n, [])
-  | .recv e => ({ n with st := (step n.st e).1 }, (step n.st e).2)
+  | .deliverNext j => nDeliver n j
+  | .recv e => nRecv n e
 
 /-- admissible receiver events of the join theorem: no external deliveries (the network does that), plain calls only -/
 def NAdm : NEv → Prop
